@@ -232,6 +232,14 @@ func c12IDs(p *ana.Prog, r *ana.Result) {
 				chk, _ := fieldChain(x.Key)
 				// key must be currentID loaded after the increment store in this function
 				after := false
+				// ... or the very value that this function stores into currentID (a local holding currentID+1)
+				ana.Instrs(fn, func(j ssa.Instruction) {
+					if st, ok := j.(*ssa.Store); ok {
+						if c2, _ := fieldChain(st.Addr); c2 == "currentID" && st.Val == x.Key {
+							after = true
+						}
+					}
+				})
 				if chk == "currentID" {
 					ana.Instrs(fn, func(j ssa.Instruction) {
 						if st, ok := j.(*ssa.Store); ok {
@@ -262,50 +270,26 @@ func c12Valid(p *ana.Prog, r *ana.Result) {
 	iv := mustFunc(p, r, "net/ntske", "(*Key).IsValidAt")
 	if iv != nil {
 		fname := ana.FuncName(iv)
-		bef := boolCallGate(p, iv, "!t.Before(NotBefore)", "(time.Time).Before", func(c *ssa.CallCommon) bool {
-			ch, _ := fieldChain(c.Args[1])
-			return ana.AccessPath(c.Args[0]) == "t" && ch == "Validity.NotBefore"
-		}, false)
-		aft := boolCallGate(p, iv, "!t.After(NotAfter)", "(time.Time).After", func(c *ssa.CallCommon) bool {
-			ch, _ := fieldChain(c.Args[1])
-			return ana.AccessPath(c.Args[0]) == "t" && ch == "Validity.NotAfter"
-		}, false)
-		retTrue := func(in ssa.Instruction) bool {
-			ret, ok := in.(*ssa.Return)
-			if !ok {
-				return false
-			}
-			b, isC := ana.ConstBool(ret.Results[0])
-			return !isC || b
-		}
-		retFalse := func(in ssa.Instruction) bool {
-			ret, ok := in.(*ssa.Return)
-			if !ok {
-				return false
-			}
-			b, isC := ana.ConstBool(ret.Results[0])
-			return !isC || !b
-		}
-		ok := len(bef.Accept) > 0 && len(aft.Accept) > 0
+		// exact truth table over the two comparisons (independent of how the boolean expression is written)
+		kb := "call:(time.Time).Before(t,k.Validity.NotBefore)"
+		ka := "call:(time.Time).After(t,k.Validity.NotAfter)"
+		res := ana.RunTable(iv, []ana.TableInput{{Path: kb, Values: []int64{0, 1}}, {Path: ka, Values: []int64{0, 1}}})
+		ok := res.Err == nil
 		var wit []string
-		for _, g := range []*ana.Gate{bef, aft} {
-			if len(g.Accept) == 0 {
-				continue
+		if res.Err != nil {
+			wit = []string{"UNDECIDED: " + res.Err.Error()}
+		} else {
+			for i := 0; i < res.N; i++ {
+				pt := res.Point(i)
+				want := int64(0)
+				if pt[0] == 0 && pt[1] == 0 {
+					want = 1
+				}
+				if res.Panics[i] || res.Returns[0][i] != want {
+					ok = false
+					wit = append(wit, fmt.Sprintf("t.Before(NotBefore)=%v t.After(NotAfter)=%v -> %d", pt[0] == 1, pt[1] == 1, res.Returns[0][i]))
+				}
 			}
-			if okp, w := ana.MustPass(iv, nil, g, retTrue, nil, nil); !okp {
-				ok = false
-				wit = w
-			}
-		}
-		// false is returned only when one of the two tests failed: path taking both accept edges must not reach `return false`
-		s := &ana.Search{Fn: iv, Target: retFalse, Cut: func(e ana.Edge) bool {
-			// cut the reject edges (complement of accept edges at the same Ifs)
-			o := ana.Edge{From: e.From, Succ: 1 - e.Succ}
-			return bef.Accept[o] || aft.Accept[o]
-		}}
-		if found, w := s.Run(nil); found {
-			ok = false
-			wit = w
 		}
 		if ok {
 			r.Ok("C12.valid", fname, "validity-predicate", p.Pos(iv.Pos()), "IsValidAt(t) is true exactly when !t.Before(NotBefore) && !t.After(NotAfter)")
